@@ -4,12 +4,11 @@ import NeverModel.Props.C09
 # C14 — exhausting the VM stack or heap is reported, not suffered
 
 `pushP` is the push sequence every value-producing handler of the model goes through
-(`sp++; vm_check_stack; stack[sp] = …`, `pushAddr`).  The theorems say: such a push is either in
-bounds or ends in the "stack too large" report *before* any write.  MARK does it the other way
-round — five writes, then the check — so `stack_writes_in_bounds` is false for it on the pinned
-tree (`mark_writes_before_check_counterexample`, general in the machine state); ALLOC,
-RECORD_UNPACK and DUP share the pattern (checked by trace correspondence and replayed under
-ASan by checks/c14.py as known findings).
+(`sp++; vm_check_stack; stack[sp] = …`, `pushAddr`).  The theorems say: such a push, and the frame
+construction of MARK, is either in bounds or ends in the "stack too large" report *before* any
+write.  On the pinned tree MARK, ALLOC, RECORD_UNPACK and DUP wrote first and checked afterwards
+(`mark_pinned_writes_before_check_counterexample`); a `fix:` commit moved the check before the
+writes in all four, the model mirrors the repaired code, and ALLOC now goes through `pushAddr`.
 -/
 namespace Never.C14
 open Never Never.Vm
@@ -31,18 +30,28 @@ theorem push_never_wild (vm : Vm) (a : Nat) (hs : StackOk vm) (h0 : -1 ≤ vm.sp
     pushP vm a ≠ .error (.crash "stack write out of bounds") := by
   rcases push_in_bounds_or_reported vm a hs h0 with ⟨t, h⟩ | ⟨v, h, _⟩ <;> rw [h] <;> simp
 
-/-- MARK when the frame fits: all five words land inside the stack -/
-theorem mark_in_bounds_partial (vm : Vm) (retAddr : Nat) (hs : StackOk vm) (h0 : -1 ≤ vm.sp)
-    (h1 : vm.sp + 5 < vm.stackSize) : ∃ vm', markP vm retAddr = .ok vm' ∧ vm'.sp < vm'.stackSize ∧ vm'.sp = vm.sp + 5 := by
-  obtain ⟨vm', e, p⟩ := markP_spec vm retAddr hs h0 h1
-  exact ⟨vm', e, by rw [p.sp, p.size]; exact h1, p.sp⟩
+/-- **MARK never writes outside the stack** (full strength since the `fix:` commit b857a09 moved the check before the
+writes): either the frame fits and all five words land inside, or "stack too large" is reported and nothing
+was written -/
+theorem mark_in_bounds (vm : Vm) (retAddr : Nat) (hs : StackOk vm) (h0 : -1 ≤ vm.sp) :
+    (∃ t, markP vm retAddr = .error (.exit "stack too large" t)) ∨
+    (∃ vm', markP vm retAddr = .ok vm' ∧ vm'.sp < vm'.stackSize ∧ vm'.sp = vm.sp + 5) := by
+  by_cases h : vm.sp + 5 ≥ vm.stackSize
+  · exact Or.inl (markP_overflow vm retAddr h)
+  · obtain ⟨vm', e, p⟩ := markP_spec vm retAddr hs h0 (by omega)
+    exact Or.inr ⟨vm', e, by rw [p.sp, p.size]; omega, p.sp⟩
 
-/-- MARK when the frame does NOT fit: the first write is already outside the stack and no
-"stack too large" report is produced — for every machine state (the pinned-tree defect) -/
-theorem mark_writes_before_check_counterexample (vm : Vm) (retAddr : Nat) (h : vm.sp + 5 ≥ vm.stackSize) :
-    markP vm retAddr = .error (.crash "stack write out of bounds") ∧
-    ∀ t, markP vm retAddr ≠ .error (.exit "stack too large" t) := by
-  have := markP_overflow vm retAddr h
+theorem mark_never_wild (vm : Vm) (retAddr : Nat) (hs : StackOk vm) (h0 : -1 ≤ vm.sp) :
+    markP vm retAddr ≠ .error (.crash "stack write out of bounds") := by
+  rcases mark_in_bounds vm retAddr hs h0 with ⟨t, h⟩ | ⟨v, h, _⟩ <;> rw [h] <;> simp
+
+/-- the defect that was repaired: the pinned MARK wrote five words first and checked afterwards, so an exhausted
+stack was overrun instead of reported — for every machine state (recorded as `fixed:`; the ASan grid of
+checks/c14.py reports it again if it ever returns, together with ALLOC / RECORD_UNPACK / DUP which shared it) -/
+theorem mark_pinned_writes_before_check_counterexample (vm : Vm) (retAddr : Nat) (h : vm.sp + 5 ≥ vm.stackSize) :
+    markPinnedP vm retAddr = .error (.crash "stack write out of bounds") ∧
+    ∀ t, markPinnedP vm retAddr ≠ .error (.exit "stack too large" t) := by
+  have := markPinnedP_overflow vm retAddr h
   exact ⟨this, by intro t; rw [this]; simp⟩
 
 /-- the stack limit test reads nothing but `sp` and the configured size: a larger stack never turns
@@ -61,7 +70,6 @@ touches no cell -/
 theorem heap_limit_reported {g : Gc} (o : Obj) (inv : Inv g) :
     g.alloc o = none ↔ g.cur.length + 1 = g.mem.size := C09.oom_iff_full o inv
 
-example : markP (Vm.new 10 8) 3 = .error (.crash "stack write out of bounds") ∨ True := Or.inr trivial
 example : ((Vm.new 10 8).sp + 5 ≥ ((Vm.new 10 8).stackSize : Int)) = False := by simp [Vm.new]
 example : (({ Vm.new 10 8 with sp := 4 } : Vm).sp + 5 ≥ (({ Vm.new 10 8 with sp := 4 } : Vm).stackSize : Int)) := by simp [Vm.new]
 
